@@ -145,6 +145,51 @@ func TestC13(t *testing.T) {
 	for _, n := range []int{65506, 65507} {
 		oneUDP("udp-len-max", n)
 	}
+	// carry windows: choose the Identification (header) and the last payload word (UDP) so that the 32-bit
+	// accumulator needs two folding rounds, or folds to exactly 0xFFFF / 0x0000
+	fix := func(sum uint32, targets []uint32) []uint16 {
+		var out []uint16
+		for _, tg := range targets {
+			for _, dlt := range []uint32{0, 1, 2, 0xffff, 0xfffe} {
+				w := (tg + dlt - sum) & 0xffff
+				out = append(out, uint16(w))
+			}
+		}
+		return out
+	}
+	wsum := func(b []byte) uint32 {
+		var a uint32
+		for i := 0; i+1 < len(b); i += 2 {
+			a += uint32(b[i])<<8 | uint32(b[i+1])
+		}
+		if len(b)%2 == 1 {
+			a += uint32(b[len(b)-1]) << 8
+		}
+		return a
+	}
+	for i := 0; i < scale(60, 600); i++ {
+		src, dst := r.Uint32(), r.Uint32()
+		data := payloadPattern(r, 2*(1+r.Intn(200)))
+		ub := layer.UDP{SrcPort: 67, DstPort: 68, Data: data}.Assemble()
+		h := layer.IPv4{Flags: uint16(r.Uint32()), TTL: 64, Protocol: 0x11, Source: ip4(src), Destination: ip4(dst), Data: ub}
+		hdr := h.Assemble()[:20]
+		hdr[10], hdr[11], hdr[4], hdr[5] = 0, 0, 0, 0
+		for _, id := range fix(wsum(hdr), []uint32{0xffff, 0x1fffe, 0x2fffd, 0x3fffc, 0x10000}) {
+			h.Identification = id
+			if pkt := emitIPv4Assemble(c, "carry-window-id", h); pkt != nil {
+				c.add(1310, "carry-window-id", true, args(B(pkt)), args(L{1}))
+			}
+		}
+		ps := wsum(ub[:len(ub)-2]) + (src >> 16) + (src & 0xffff) + (dst >> 16) + (dst & 0xffff) + 17 + uint32(len(ub))
+		for _, w := range fix(ps, []uint32{0xffff, 0x1fffe, 0x2fffd, 0x3fffc, 0x10000, 0x20000}) {
+			d2 := append([]byte{}, data...)
+			d2[len(d2)-2], d2[len(d2)-1] = byte(w>>8), byte(w)
+			h.Data = layer.UDP{SrcPort: 67, DstPort: 68, Data: d2}.Assemble()
+			if pkt := emitIPv4Assemble(c, "carry-window-udp", h); pkt != nil {
+				c.add(1311, "carry-window-udp", true, args(L{uint64(src), uint64(dst)}, B(pkt[20:])), args(L{1}))
+			}
+		}
+	}
 	// beyond the datagram maximum the 16-bit length fields wrap; the model carries the wrap
 	for _, n := range []int{65508, 65515, 65528, 65536, 70000} {
 		data := payloadPattern(r, n)
